@@ -1,56 +1,112 @@
 use rusty_common::Positioned;
-use rusty_pc::and::TupleCombiner;
+use rusty_pc::boxed::BoxedParser;
 use rusty_pc::*;
 
 use crate::error::ParserError;
-use crate::expr::{expression_pos_p, ws_expr_pos_p};
 use crate::input::StringView;
-use crate::pc_specific::{WithPos, lead_opt_ws, lead_ws};
-use crate::tokens::{TokenType, any_token};
+use crate::pc_specific::{WithPos, lead_opt_ws, lead_ws, whitespace_ignoring};
+use crate::tokens::{TokenType, any_symbol_of, any_token, any_token_of};
 use crate::{ExpressionPos, ExpressionPosTrait, ExpressionTrait, Keyword, Operator};
 
-// result ::= <non-bin-expr> <operator> <expr>
+// result ::= <non-bin-expr> ( <operator> <non-bin-expr> )*
 pub(super) fn parser() -> impl Parser<StringView, Output = ExpressionPos, Error = ParserError> {
-    non_bin_expr()
-        .then_with_in_context(
-            second_parser().map_ctx(ExpressionTrait::is_parenthesis),
-            TupleCombiner,
-        )
-        .map(|(l, r)| match r {
-            Some((op, r)) => l.apply_priority_order(r, op.element, op.pos),
-            None => l,
-        })
-        .map(ExpressionPos::simplify_unary_minus_literals)
+    BinaryChainParser::new()
 }
 
-fn second_parser() -> impl Parser<
-    StringView,
-    bool,
-    Output = Option<(Positioned<Operator>, ExpressionPos)>,
-    Error = ParserError,
-> {
-    operator()
-        .then_with_in_context(
-            expr_after_binary_operator().map_ctx(is_keyword_op),
-            TupleCombiner,
-        )
-        .to_option()
+/// Parses a chain of operands and binary operators in a loop, so that the depth of
+/// the parser's own recursion does not grow with the number of operands of a flat
+/// expression such as `1 + 1 + 1 + ...` (it still grows with the nesting of
+/// parentheses, calls and unary operators).
+///
+/// The tree is then built from the right, one operator at a time, exactly as the
+/// right-recursive grammar `<non-bin-expr> <operator> <expr>` would have built it:
+/// the expression to the right of an operator is complete before the operator is
+/// applied (see [ExpressionPosTrait::apply_priority_order]).
+struct BinaryChainParser {
+    operand: BoxedParser<StringView, (), ExpressionPos, ParserError>,
+    /// operator after an operand in parenthesis: no whitespace needed
+    operator_after_parenthesis: BoxedParser<StringView, (), Positioned<Operator>, ParserError>,
+    /// operator after any other operand: a keyword operator needs whitespace
+    operator_after_other: BoxedParser<StringView, (), Positioned<Operator>, ParserError>,
+    /// the operand after a keyword operator must have whitespace or start with a parenthesis
+    operand_after_keyword_operator: BoxedParser<StringView, (), ExpressionPos, ParserError>,
+    /// the operand after a symbol operator: whitespace is optional
+    operand_after_symbol_operator: BoxedParser<StringView, (), ExpressionPos, ParserError>,
+}
+
+impl BinaryChainParser {
+    fn new() -> Self {
+        Self {
+            operand: non_bin_expr().boxed(),
+            operator_after_parenthesis: lead_opt_ws(operator_p()).boxed(),
+            operator_after_other: symbol_operator_p().or(lead_ws(operator_p())).boxed(),
+            operand_after_keyword_operator: guarded_operand()
+                .or_expected("expression after operator")
+                .boxed(),
+            operand_after_symbol_operator: lead_opt_ws(non_bin_expr())
+                .or_expected("expression after operator")
+                .boxed(),
+        }
+    }
+}
+
+impl Parser<StringView> for BinaryChainParser {
+    type Output = ExpressionPos;
+    type Error = ParserError;
+
+    fn parse(&mut self, input: &mut StringView) -> Result<ExpressionPos, ParserError> {
+        let mut operands: Vec<ExpressionPos> = vec![self.operand.parse(input)?];
+        let mut operators: Vec<Positioned<Operator>> = vec![];
+        loop {
+            let previous_is_parenthesis = operands
+                .last()
+                .map(ExpressionTrait::is_parenthesis)
+                .unwrap_or_default();
+            let operator_result = if previous_is_parenthesis {
+                self.operator_after_parenthesis.parse(input)
+            } else {
+                self.operator_after_other.parse(input)
+            };
+            let operator = match operator_result {
+                Ok(operator) => operator,
+                Err(err) if err.is_soft() => break,
+                Err(err) => return Err(err),
+            };
+            let operand = if is_keyword_op(&operator) {
+                self.operand_after_keyword_operator.parse(input)?
+            } else {
+                self.operand_after_symbol_operator.parse(input)?
+            };
+            operators.push(operator);
+            operands.push(operand);
+        }
+        // build the tree from the right
+        let mut result = operands
+            .pop()
+            .expect("at least one operand")
+            .simplify_unary_minus_literals();
+        while let Some(operator) = operators.pop() {
+            let left = operands.pop().expect("one operand per operator");
+            result = left
+                .apply_priority_order(result, operator.element, operator.pos)
+                .simplify_unary_minus_literals();
+        }
+        Ok(result)
+    }
+
+    fn set_context(&mut self, _ctx: &()) {}
 }
 
 fn is_keyword_op(op: &Positioned<Operator>) -> bool {
     op.element == Operator::And || op.element == Operator::Or || op.element == Operator::Modulo
 }
 
-fn expr_after_binary_operator()
--> impl Parser<StringView, bool, Output = ExpressionPos, Error = ParserError> {
-    // boxed breaks apart the recursive type evaluation
-    IifCtxParser::new(
-        // the previous operator is a keyword op, must have whitespace or parenthesis
-        ws_expr_pos_p().boxed(),
-        // the previous operator is a symbol, whitespace is optional
-        lead_opt_ws(expression_pos_p().boxed()),
-    )
-    .or_expected("expression after operator")
+/// An operand that is preceded by whitespace, or starts with a parenthesis or a minus sign
+/// (which cannot be taken for a part of the keyword before it).
+fn guarded_operand() -> impl Parser<StringView, Output = ExpressionPos, Error = ParserError> {
+    whitespace_ignoring()
+        .or(any_symbol_of!('(', '-').map_to_unit().peek())
+        .and_keep_right(non_bin_expr())
 }
 
 fn non_bin_expr() -> impl Parser<StringView, Output = ExpressionPos, Error = ParserError> {
@@ -64,19 +120,6 @@ fn non_bin_expr() -> impl Parser<StringView, Output = ExpressionPos, Error = Par
         Box::new(super::parenthesis::parser()),
         Box::new(super::unary_expression::parser()),
     ])
-}
-
-/// Parses an operator.
-/// The parameter indicates if the previously parsed expression was wrapped in
-/// parenthesis. If that is the case, leading whitespace is not required for
-/// keyword based operators.
-fn operator() -> impl Parser<StringView, bool, Output = Positioned<Operator>, Error = ParserError> {
-    IifCtxParser::new(
-        // no whitespace needed
-        lead_opt_ws(operator_p()),
-        // whitespace needed
-        symbol_operator_p().or(lead_ws(operator_p())),
-    )
 }
 
 /// Parses an operator.
